@@ -114,10 +114,21 @@ theorem aten_narrow_len_agrees_partial (d start length : Int)
   simp only [Int.min_def, Int.max_def]
   (repeat' split) <;> omega
 
-/-- FINDING C08-narrow-negative-start: `narrow(x[3], 0, -2, 2)` — PyTorch wraps the start and
-returns 2 elements; the emitted `Slice(-2, 0)` is empty. -/
-theorem aten_narrow_negative_start_refuted :
-    narrow.model [3] 0 (-2) 2 = some [0] ∧ narrow.spec [3] 0 (-2) 2 = some [2] := by decide
+/-- After fix ca35059 a negative Python-int start is wrapped once at trace time: for every axis size and every
+start in `[-d, 0)` with `start + d + length ≤ d`, the slice has exactly `length` elements. -/
+theorem aten_narrow_wrapped_len_agrees (d start length : Int)
+    (h0 : -d ≤ start) (hl : 0 ≤ length) (hb : start + d + length ≤ d) :
+    (sliceLen d (start + d) (start + d + length) 1 : Int) = length :=
+  aten_narrow_len_agrees_partial d (start + d) length (by omega) hl hb
+
+/-- Regression guard (was finding C08-narrow-negative-start): `narrow(x[3], 0, -2, 2)`. -/
+theorem aten_narrow_negative_start_fixed :
+    narrow.model [3] false 0 (-2) 2 = narrow.spec [3] 0 (-2) 2 := by decide
+
+/-- FINDING C08-narrow-negative-start-tensor: a tensor-valued negative start is not wrapped (the trace-time
+normalisation applies to Python ints only): `narrow(x[3], 0, tensor(-2), 2)` is still empty. -/
+theorem aten_narrow_negative_start_tensor_refuted :
+    narrow.model [3] true 0 (-2) 2 = some [0] ∧ narrow.spec [3] 0 (-2) 2 = some [2] := by decide
 
 /-- `aten_select` / `aten_index_select` bookkeeping is the same function on both sides; what is
 worth a theorem is the index range: ONNX `Gather` accepts exactly PyTorch's `[-d, d-1]`. -/
@@ -151,16 +162,24 @@ theorem aten_flip_len_agrees (d : Int) (hd0 : 0 ≤ d) (hd : d < INT64_MAX) :
   OV.Lemmas.C08.flip_len d hd0 hd
 
 /-- `aten_roll`, one `(shift, dim)` step: the two slices partition the axis (their lengths add up to
-`d`) whenever `-d ≤ shift ≤ 2d` — the hypothesis the proof forces. -/
+`d`) whenever `-d ≤ shift ≤ 2d`. -/
 theorem aten_roll_len_agrees_partial (d big : Nat) (shift : Int) (hbig : d ≤ big)
     (h1 : -(d : Int) ≤ shift) (h2 : shift ≤ 2 * (d : Int)) :
     (roll.stepIdx d big shift).length = d :=
   OV.Lemmas.C08.roll_len d big shift hbig h1 h2
 
-/-- FINDING C08-roll-large-shift: `roll(x[3], 7, 0)`: the graph returns the identity, PyTorch rolls by
-`7 mod 3 = 1`. -/
-theorem aten_roll_large_shift_refuted :
-    roll.stepIdx 3 3 7 = [0, 1, 2] ∧ roll.specIdx 3 7 = [2, 0, 1] := by decide
+/-- After fix 34e2b8e the shift is reduced modulo the size first, so the partition holds for **every** shift. -/
+theorem aten_roll_len_agrees (d big : Nat) (shift : Int) (hd : 0 < d) (hbig : d ≤ big) :
+    (roll.stepIdx d big (roll.redShift d shift)).length = d := by
+  unfold roll.redShift
+  simp only [hd, if_true, gt_iff_lt]
+  have h1 := Int.emod_nonneg shift (show (d : Int) ≠ 0 by omega)
+  have h2 := Int.emod_lt_of_pos shift (show (0 : Int) < d by omega)
+  exact OV.Lemmas.C08.roll_len d big _ hbig (by omega) (by omega)
+
+/-- Regression guard (was finding C08-roll-large-shift): `roll(x[3], 7, 0)` now reads PyTorch's indices. -/
+theorem aten_roll_large_shift_fixed :
+    roll.stepIdx 3 3 (roll.redShift 3 7) = roll.specIdx 3 7 := by decide
 
 /-- Regression guard for fix e681d51 (was finding C08-roll-negative-last-dim): `roll(x[2,3], 1, -1)` now has
 PyTorch's shape. -/
@@ -171,10 +190,10 @@ theorem aten_roll_negative_last_dim_fixed :
 theorem aten_roll_multi_negative_dim_ok :
     roll.model [2, 3, 4] [4, 0] [2, -2] = roll.spec [2, 3, 4] [4, 0] [2, -2] := by decide
 
-/-- FINDING C08-chunk-uneven: `chunk(x[6], 4)`: PyTorch returns 3 pieces of 2; `Split(num_outputs=4)`
-is refused by the runtime. -/
-theorem aten_chunk_uneven_refuted :
-    chunk.model [6] 4 0 = none ∧ chunk.spec [6] 4 0 = some [[2], [2], [2]] := by decide
+/-- Regression guard (was finding C08-chunk-uneven, fix f427d44): `chunk(x[6], 4)`, `chunk(x[5], 4)`, an empty dim. -/
+theorem aten_chunk_uneven_fixed :
+    chunk.model [6] 4 0 = chunk.spec [6] 4 0 ∧ chunk.model [5] 4 0 = chunk.spec [5] 4 0
+    ∧ chunk.model [5, 0] 5 1 = chunk.spec [5, 0] 5 1 := by decide
 
 /-- `aten_chunk` when the axis divides evenly (`d = q·n`): `Split(num_outputs=n)` yields PyTorch's `n` pieces of
 `q`, for all `q ≥ 1`, `n ≥ 2`. -/
@@ -189,19 +208,16 @@ theorem aten_split_sizes_agree_partial (d c : Nat) (hd : 0 < d) (hc : 0 < c) :
     splitScalar d c = split.specSizes d c :=
   OV.Lemmas.C08.split_sizes d c hd hc
 
-/-- `aten_roll` with one `(shift, dim)` pair — any rank ≥ 1, any valid `dim` (negative included, after fix
-e681d51), `-d ≤ shift ≤ 2d`, no zero-size dim hiding the axis (`d ≤ numel`): the result has the input's shape. -/
+/-- `aten_roll` with one `(shift, dim)` pair — any rank ≥ 1, any valid `dim` (negative included, fix e681d51),
+**any shift** (fix 34e2b8e), no zero-size dim hiding the axis (`0 < d ≤ numel`): the result has the input's shape. -/
 theorem aten_roll_shape_agrees_partial (s : Shape) (shift dim : Int) (a : Nat)
     (h0 : s.length ≠ 0) (hz : s.getD 0 0 ≠ 0) (ha : normAxis s.length dim = some a)
-    (hn : s.getD a 0 ≤ numel s)
-    (h1 : -((s.getD a 0 : Nat) : Int) ≤ shift) (h2 : shift ≤ 2 * ((s.getD a 0 : Nat) : Int)) :
+    (hd : 0 < s.getD a 0) (hn : s.getD a 0 ≤ numel s) :
     roll.model s [shift] [dim] = some s :=
-  OV.Lemmas.C08.roll_shape_one s shift dim a h0 hz ha (OV.Lemmas.C08.roll_len _ _ shift hn h1 h2)
+  OV.Lemmas.C08.roll_shape_one s shift dim a h0 hz ha (aten_roll_len_agrees _ _ shift hd hn)
 
-/-- FINDING C08-split-zero-dim: `split(x[0,2], 3, 0)`: PyTorch returns one empty piece, the
-`SplitToSequence` an empty sequence. -/
-theorem aten_split_zero_dim_refuted :
-    split.model [0, 2] 3 0 = some [] ∧ split.spec [0, 2] 3 0 = some [[0, 2]] := by decide
+/-- Regression guard (was finding C08-split-zero-dim, fix 71e4aaa): `split(x[0,2], 3, 0)` is one empty piece. -/
+theorem aten_split_zero_dim_fixed : split.model [0, 2] 3 0 = split.spec [0, 2] 3 0 := by decide
 
 /-! ## view algebra -/
 
@@ -222,10 +238,10 @@ theorem aten_expand_agrees (s : Shape) (size : List Int) (out : Shape)
     (h : expand.spec s size = some out) : expand.model s size = some out :=
   OV.Lemmas.C08.expand_agrees s size out h
 
-/-- `aten_broadcast_to` does not map `-1`: agreement needs a size without `-1` (finding C08-broadcast-to-neg1). -/
-theorem aten_broadcast_to_agrees_partial (s : Shape) (size : List Int) (out : Shape) (hn : ∀ d ∈ size, d ≠ -1)
+/-- `aten_broadcast_to` (after fix fe4fd65 it maps `-1 ↦ 1` like `aten_expand`): agreement wherever PyTorch accepts. -/
+theorem aten_broadcast_to_agrees (s : Shape) (size : List Int) (out : Shape)
     (h : broadcast_to.spec s size = some out) : broadcast_to.model s size = some out :=
-  OV.Lemmas.C08.broadcast_to_agrees s size out hn h
+  OV.Lemmas.C08.broadcast_to_agrees s size out h
 
 /-- `aten_t`: every shape of rank ≤ 2. -/
 theorem aten_t_agrees (s : Shape) (h : s.length ≤ 2) : t.model s = t.spec s := by
@@ -234,10 +250,14 @@ theorem aten_t_agrees (s : Shape) (h : s.length ≤ 2) : t.model s = t.spec s :=
   | [_], _ => rfl
   | [a, b], _ => simp [t.model, t.spec, transposeOp, isPerm, hasDup]
 
-/-- FINDING C08-reshape-zero: `reshape(x[2,0,3], (0, 6))` — PyTorch `[0,6]`; `Reshape(allowzero=0)` copies
-input dim 0 (`2`) for the `0` and the runtime refuses `[2,6]`. -/
-theorem aten_reshape_zero_refuted :
-    reshape_.model [2, 0, 3] [0, 6] = none ∧ reshape_.spec [2, 0, 3] [0, 6] = some [0, 6] := by decide
+/-- `aten_reshape` (after fix 5bf0068: `Reshape(allowzero=1)`): PyTorch's `infer_size` wherever PyTorch accepts —
+every shape, 0-size dims and `0` entries included. -/
+theorem aten_reshape_agrees (s : Shape) (size : List Int) (out : Shape)
+    (h : reshape_.spec s size = some out) : reshape_.model s size = some out :=
+  OV.Lemmas.C08.view_agrees s size out h
+
+/-- Regression guard (was finding C08-reshape-zero): `reshape(x[2,0,3], (0, 6))`. -/
+theorem aten_reshape_zero_fixed : reshape_.model [2, 0, 3] [0, 6] = reshape_.spec [2, 0, 3] [0, 6] := by decide
 
 /-- FINDING C08-reshape-zero (flatten): `flatten(x[2,0,3,0], 1, 2)` — PyTorch `[2,0,0]`, the graph `[2,0,3]`
 (the tail `0` is re-read as "copy input dim 2"). -/
@@ -252,12 +272,9 @@ theorem aten_flatten_op_branches_agree (a b : Nat) (rest : Shape) :
     ∧ flatten.model [] 0 (-1) = flatten.spec [] 0 (-1) :=
   OV.Lemmas.C08.flatten_branches a b rest
 
-/-- FINDING C08-unflatten-zero-infer: `unflatten(x[0,0,5], 1, (1,-1))` — PyTorch infers inside the dim
-(`[0,1,0,5]`); the emitted `Reshape(allowzero=1)` target `[0,1,-1,5]` mixes 0 and -1 and onnxruntime
-answers `[0,1,1,5]`. -/
-theorem aten_unflatten_zero_infer_refuted :
-    unflatten.model [0, 0, 5] 1 [1, -1] = some [0, 1, 1, 5]
-    ∧ unflatten.spec [0, 0, 5] 1 [1, -1] = some [0, 1, 0, 5] := by decide
+/-- Regression guard (was finding C08-unflatten-zero-infer, fix 6c44051): `unflatten(x[0,0,5], 1, (1,-1))`. -/
+theorem aten_unflatten_zero_infer_fixed :
+    unflatten.model [0, 0, 5] 1 [1, -1] = unflatten.spec [0, 0, 5] 1 [1, -1] := by decide
 
 /-- FINDING C08-squeeze-dim-nonunit (known to the repo's own tests): `squeeze(x[2,3], 0)` is a no-op in
 PyTorch; ONNX `Squeeze` refuses a non-unit axis. -/
@@ -289,11 +306,23 @@ theorem aten_arange_len_characterisation (start stop step : Int) (hs : 0 < step)
 theorem aten_cat_legacy_empty_fixed :
     cat.model [[2, 3], [0], [2, 3]] 1 = cat.spec [[2, 3], [0], [2, 3]] 1 := by decide
 
-/-- `aten_cat` (after fix 68ff4be), every list of shapes and every `dim`: wherever PyTorch accepts the call and at
-least one tensor survives the legacy-empty filter, the emitted `Identity`/`Concat` has PyTorch's shape. -/
-theorem aten_cat_agrees_partial (ss : List Shape) (dim : Int) (out : Shape)
-    (hne : ss.filter (· != [0]) ≠ []) (h : cat.spec ss dim = some out) : cat.model ss dim = some out :=
-  OV.Lemmas.C08.cat_agrees ss dim out hne h
+/-- `aten_cat` (after fixes 68ff4be, e37a118), every list of shapes and every `dim`: wherever PyTorch accepts the call,
+the emitted `Identity`/`Concat` has PyTorch's shape — the legacy-empty rule and the all-empty case included. -/
+theorem aten_cat_agrees (ss : List Shape) (dim : Int) (out : Shape)
+    (h : cat.spec ss dim = some out) : cat.model ss dim = some out :=
+  OV.Lemmas.C08.cat_agrees ss dim out h
+
+/-- `aten_repeat`: `Expand(x, [1]*n)` then `Tile(repeats)` is `x.repeat(*repeats)` wherever PyTorch accepts
+(at least `rank` non-negative entries) — all shapes, zero repeats and the empty list included. -/
+theorem aten_repeat_agrees (s : Shape) (reps : List Int) (out : Shape)
+    (h : repeat_.spec s reps = some out) : repeat_.model s reps = some out :=
+  OV.Lemmas.C08.repeat_agrees s reps out h
+
+/-- `aten_stack` of any number `n + 1` of tensors of one shape, any rank, any `dim` (negative, out of range):
+`Unsqueeze` each + `Concat` has `torch.stack`'s shape and refusals. -/
+theorem aten_stack_agrees (s : Shape) (n : Nat) (dim : Int) :
+    stack.model (List.replicate (n + 1) s) dim = stack.spec (List.replicate (n + 1) s) dim :=
+  OV.Lemmas.C08.stack_agrees s n dim
 
 /-- `aten_tile` when `dims` is not longer than the rank (the left-padding branch and the equal-length branch):
 same shape, same refusals as `torch.tile`, all shapes. -/
@@ -301,9 +330,8 @@ theorem aten_tile_agrees_partial (s : Shape) (dims : List Int) (h : dims.length 
     tile.model s dims = tile.spec s dims :=
   OV.Lemmas.C08.tile_agrees s dims h
 
-/-- FINDING C08-cat-all-empty: `cat([e[0]])` — PyTorch returns `[0]`; `aten_cat` asserts. -/
-theorem aten_cat_all_empty_refuted :
-    cat.model [[0]] (-1) = none ∧ cat.spec [[0]] (-1) = some [0] := by decide
+/-- Regression guard (was finding C08-cat-all-empty): `cat([e[0]])`. -/
+theorem aten_cat_all_empty_fixed : cat.model [[0]] (-1) = cat.spec [[0]] (-1) := by decide
 
 /-- `aten_stack` of `n ≥ 1` equal shapes at a valid `dim`: `Unsqueeze` each, `Concat`. -/
 theorem aten_stack_two_agrees (a b : Nat) :
@@ -380,11 +408,29 @@ theorem pad_layout_begins_then_ends (rank : Nat) (ps : List (Int × Int)) (hm : 
         ++ (List.replicate (rank - ps.length) 0 ++ ps.reverse.map Prod.snd) :=
   OV.Lemmas.C08.pad_layout rank ps hm
 
-/-- FINDING C08-pool-len1-attr: `avg_pool2d(x[2,3,4], (3,1), stride=(3,))` — PyTorch broadcasts the 1-tuple,
-the adjuster passes `strides=[3]` to a 2-D `AveragePool`. -/
-theorem pool_len1_stride_refuted :
-    avg_pool.model 2 [2, 3, 4] (.list [3, 1]) (.list [3]) (.list [0, 0]) true = none
-    ∧ avg_pool.spec 2 [2, 3, 4] (.list [3, 1]) (.list [3]) (.list [0, 0]) true = some [2, 1, 2] := by decide
+/-- `aten_unfold`: the number of windows `Range(0, d - (size-1), step)` produces is PyTorch's `(d - size)/step + 1`,
+every size, window and positive step. -/
+theorem unfold_windows_agree (d size step : Int) (hs : 0 < step) (h : size ≤ d) :
+    (unfold_.windows d size step : Int) = unfold_.specWindows d size step :=
+  OV.Lemmas.C08.unfold_windows_agree d size step hs h
+
+/-- `aten_im2col`: the block count per axis `Range(0, n + (2p - d(k-1)), s)` is PyTorch's
+`floor((n + 2p - d(k-1) - 1)/s) + 1`. -/
+theorem im2col_blocks_agree (n k s p d : Int) (hs : 0 < s) (h : 1 ≤ n + 2 * p - d * (k - 1)) :
+    (im2col.blocksModel n k s p d : Int) = attr.torchConvOut n k s p d :=
+  OV.Lemmas.C08.im2col_blocks_agree n k s p d hs h
+
+/-- `aten_col2im` pads: `(ph, pw)` becomes `[ph, pw, ph, pw]` (begins then ends), `(w,)` becomes four `w`. -/
+theorem col2im_pads_layout (p : List Int) (h : p.length = 2) : col2im.pads p = p ++ p :=
+  OV.Lemmas.C08.col2im_pads_layout p h
+
+theorem col2im_pads_scalar (w : Int) : col2im.pads [w] = [w, w, w, w] :=
+  OV.Lemmas.C08.col2im_pads_scalar w
+
+/-- Regression guard (was finding C08-pool-len1-attr, fix df33c3d): `avg_pool2d(x[2,3,4], (3,1), stride=(3,))`. -/
+theorem pool_len1_stride_fixed :
+    avg_pool.model 2 [2, 3, 4] (.list [3, 1]) (.list [3]) (.list [0, 0]) true
+      = avg_pool.spec 2 [2, 3, 4] (.list [3, 1]) (.list [3]) (.list [0, 0]) true := by decide
 
 /-! ## reductions' bookkeeping -/
 
@@ -395,9 +441,9 @@ theorem reduce_shape_agrees (s : Shape) (dims : List Int) (keep : Bool) (out : S
     (hr : s.length ≠ 0) (h : torchReduce s dims keep = some out) : reduceOp s dims keep = some out :=
   OV.Lemmas.C08.reduce_agrees s dims keep out hr h
 
-/-- FINDING C08-argmax-keepdim-nodim: `argmax(x[2,3], keepdim=True)` — PyTorch `[1,1]`, the graph `[1]`
-(it flattens first). -/
-theorem aten_argmax_keepdim_nodim_refuted :
-    argmax.model [2, 3] none true = some [1] ∧ argmax.spec [2, 3] none true = some [1, 1] := by decide
+/-- Regression guard (was finding C08-argmax-keepdim-nodim, fix 3081284): `argmax(x[2,3], keepdim=True)`. -/
+theorem aten_argmax_keepdim_nodim_fixed :
+    argmax.model [2, 3] none true = argmax.spec [2, 3] none true
+    ∧ argmax.model [1, 2, 1, 4] none true = argmax.spec [1, 2, 1, 4] none true := by decide
 
 end OV.Props.C08
